@@ -693,6 +693,7 @@ struct Stats {
     persisted: u64,
     rt_fail: u64,
     contract_breaking: u64,
+    shuffled: u64,
     deep_rewinds: Vec<(u32, u32, u32)>,
     mem_disagree: u64,
     rebuilds: BTreeMap<&'static str, u64>,
@@ -1169,24 +1170,7 @@ fn run_sequence(r: &mut Rng, mut s: MigrationState, base: u32, len: usize, mut p
                     let exp = s.expired_transactions(tg);
                     let out = format!(
                         "(OStatuses {} {})",
-                        list(st.iter().map(|x| format!(
-                            "MkStatus {} {} {} {} {} {}",
-                            u32::from(x.id()),
-                            boolc(x.ready()),
-                            opt(x.action().map(|a| match a { NextAction::Prove => "AProve", NextAction::Broadcast => "ABroadcast" }.to_string())),
-                            opt(x.blocked_on().map(|b| match b {
-                                Blocker::Dependencies => "BDependencies",
-                                Blocker::Schedule => "BSchedule",
-                                Blocker::AnchorBoundary => "BAnchorBoundary",
-                                Blocker::Signature => "BSignature",
-                                Blocker::ExpiryImminent => "BExpiryImminent",
-                                Blocker::Expired => "BExpired",
-                                Blocker::AwaitingReevaluation => "BAwaitingReevaluation",
-                                Blocker::Unsatisfiable => "BUnsatisfiable",
-                            }.to_string())),
-                            opt(x.unsatisfiable_kind().map(|k| p_ukind(k).to_string())),
-                            opt(x.mined_height().map(|m| format!("{}", u32::from(m))))
-                        ))),
+                        list(st.iter().map(|x| p_status_row(x))),
                         list(exp.iter().map(|i| format!("{}", u32::from(*i))))
                     );
                     ("statuses", format!("(EStatuses {} {})", scanned, est), out)
@@ -1309,6 +1293,92 @@ fn sweep_lattice(stats: &mut Stats) {
                             advance_case_with(&s, T, &answers, &mined, stats);
                         }
                     }
+                }
+            }
+        }
+    }
+}
+
+fn p_status_row(x: &zcash_pool_migration::state::TransactionStatus) -> String {
+    format!(
+                            "MkStatus {} {} {} {} {} {}",
+                            u32::from(x.id()),
+                            boolc(x.ready()),
+                            opt(x.action().map(|a| match a { NextAction::Prove => "AProve", NextAction::Broadcast => "ABroadcast" }.to_string())),
+                            opt(x.blocked_on().map(|b| match b {
+                                Blocker::Dependencies => "BDependencies",
+                                Blocker::Schedule => "BSchedule",
+                                Blocker::AnchorBoundary => "BAnchorBoundary",
+                                Blocker::Signature => "BSignature",
+                                Blocker::ExpiryImminent => "BExpiryImminent",
+                                Blocker::Expired => "BExpired",
+                                Blocker::AwaitingReevaluation => "BAwaitingReevaluation",
+                                Blocker::Unsatisfiable => "BUnsatisfiable",
+                            }.to_string())),
+                            opt(x.unsatisfiable_kind().map(|k| p_ukind(k).to_string())),
+                            opt(x.mined_height().map(|m| format!("{}", u32::from(m)))))
+}
+
+fn permutations(n: usize) -> Vec<Vec<usize>> {
+    if n == 0 {
+        return vec![vec![]];
+    }
+    let mut out = Vec::new();
+    for p in permutations(n - 1) {
+        for i in 0..=p.len() {
+            let mut q = p.clone();
+            q.insert(i, n - 1);
+            out.push(q);
+        }
+    }
+    out
+}
+
+/// Dependency chains of depth 3 and 4 behind a dead source, in EVERY row order (dependents before
+/// their dependencies included): the kernel's dead set must be the closure whatever the order, so
+/// the drive API must answer Replan / Rebuild — never Waiting — and the status view must say
+/// Unsatisfiable for every stranded row.
+fn chain_lattice(stats: &mut Stats) {
+    const T: u32 = 5000;
+    for n in [3usize, 4] {
+        for perm in permutations(n) {
+            for source in 0..4u8 {
+                for tail_state in [1u8, 2] {
+                    // row k depends on row k-1; row 0 is the dead source
+                    let mut rows: Vec<TxSpec> = (0..n)
+                        .map(|k| TxSpec {
+                            id: 10 + k as u32,
+                            kind: if k + 1 == n { MigrationTxKind::Transfer { crossing: 0 } } else { MigrationTxKind::Preparation { layer: k, index: 0 } },
+                            deps: if k == 0 { vec![] } else { vec![10 + k as u32 - 1] },
+                            sched: T - 100,
+                            expiry: 0,
+                            anchor: None,
+                            txid: 200 + k as u32,
+                            unsat: None,
+                            fail: None,
+                            state: if k + 1 == n { tail_state } else { 1 },
+                            mined_h: T - 200,
+                            nf: None,
+                        })
+                        .collect();
+                    match source {
+                        0 => { rows[0].state = 3; rows[0].expiry = T - 50; }          // broadcast, expired un-mined
+                        1 => { rows[0].unsat = Some((T - 30, UnsatisfiableKind::InputsSpent)); } // marked
+                        2 => { rows[0].state = 1; rows[0].expiry = T - 1; }           // signed preparation, just expired
+                        _ => { rows[0].state = 3; rows[0].expiry = T + 50; }          // control: live in-flight source
+                    }
+                    let ordered: Vec<TxSpec> = perm.iter().map(|i| rows[*i].clone()).collect();
+                    let s = build_state(MigrationStatus::InProgress, &ordered, &[100_000], 100, 144);
+                    advance_case(&s, T, T, stats);
+                    // the status view of the same state
+                    let tg = DuenessTargets::new(h(T), h(T));
+                    let out = format!(
+                        "(OStatuses {} {})",
+                        list(s.transaction_statuses(tg).iter().map(|x| p_status_row(x))),
+                        list(s.expired_transactions(tg).iter().map(|i| format!("{}", u32::from(*i))))
+                    );
+                    emit(&p_state(&s), format!("(EStatuses {} {})", T, T), &s, out, None);
+                    *stats.events.entry("chain_lattice").or_default() += 1;
                 }
             }
         }
@@ -1617,6 +1687,7 @@ fn main() {
     witnesses(&mut stats);
     lattices(&mut stats);
     sweep_lattice(&mut stats);
+    chain_lattice(&mut stats);
     {
         let mut rw = Rng::new(a.seed, 181);
         let n = if a.thorough() || a.search { 30 } else { 8 };
@@ -1631,6 +1702,15 @@ fn main() {
         let s = if persisted {
             let mut txs: Vec<MigrationTransaction> = s.transactions().clone();
             txs.sort_by_key(|t| t.id());
+            MigrationState::from_parts(s.status(), s.denominations().clone(), s.preparation().clone(), txs, s.anchor_bucket_interval(), s.replan_threshold())
+        } else if r.chance(1, 4) && s.transactions().len() > 1 {
+            // a random row order: dependents may precede their dependencies
+            let mut txs: Vec<MigrationTransaction> = s.transactions().clone();
+            for i in (1..txs.len()).rev() {
+                let j = r.below(i as u64 + 1) as usize;
+                txs.swap(i, j);
+            }
+            stats.shuffled += 1;
             MigrationState::from_parts(s.status(), s.denominations().clone(), s.preparation().clone(), txs, s.anchor_bucket_interval(), s.replan_threshold())
         } else {
             s
@@ -1659,7 +1739,7 @@ fn main() {
         format!("{{{}}}", m.iter().map(|(k, v)| format!("\"{}\":{}", k, v)).collect::<Vec<_>>().join(","))
     };
     stat(format!(
-        "{{\"sequences\":{},\"states_dag\":{},\"states_crate_strategy\":{},\"events\":{},\"advance_steps\":{},\"advance_calls_that_shifted\":{},\"sqlite_roundtrips\":{},\"sqlite_roundtrip_failures\":{},\"rebuilds\":{},\"contract_breaking_events\":{},\"states_with_forward_dependencies\":{},\"wallet_deep_rewinds_req_achieved_tip\":{},\"memory_backend_disagreements\":{},\"panics\":{},\"tx_count_hist\":{{{}}}}}",
+        "{{\"sequences\":{},\"states_dag\":{},\"states_crate_strategy\":{},\"events\":{},\"advance_steps\":{},\"advance_calls_that_shifted\":{},\"sqlite_roundtrips\":{},\"sqlite_roundtrip_failures\":{},\"rebuilds\":{},\"contract_breaking_events\":{},\"states_with_forward_dependencies\":{},\"states_with_shuffled_rows\":{},\"wallet_deep_rewinds_req_achieved_tip\":{},\"memory_backend_disagreements\":{},\"panics\":{},\"tx_count_hist\":{{{}}}}}",
         stats.seqs,
         stats.dag,
         stats.arb,
@@ -1671,6 +1751,7 @@ fn main() {
         j(&stats.rebuilds),
         stats.contract_breaking,
         stats.reversed,
+        stats.shuffled,
         format!("[{}]", stats.deep_rewinds.iter().map(|(a, b, c)| format!("[{},{},{}]", a, b, c)).collect::<Vec<_>>().join(",")),
         stats.mem_disagree,
         stats.panics,
